@@ -11,6 +11,7 @@ import (
 	"strings"
 	"sync"
 	"time"
+	"verifharness/internal/atinit"
 
 	"github.com/mandykoh/prism/linear"
 
@@ -250,6 +251,29 @@ func runC02(r *core.Run) {
 	// fresh process whose very first call into each encoder is at one chosen x, followed by the
 	// others in ascending order from there (a table built lazily in parts, by range, shows only
 	// for the part that is touched first)
+	if atinit.Records != nil {
+		// this child encoded during package initialisation, before anything else ran
+		n := 0
+		for _, rec := range atinit.Records {
+			if rec.Call != "To8Bit" {
+				continue
+			}
+			for i := range encs {
+				if encs[i].Name != rec.Space+".To8Bit" {
+					continue
+				}
+				n++
+				lo, hi := c02Bounds(&encs[i], float64(rec.In[0]), 0)
+				if got := float64(rec.Out[0]); got < lo || got > hi {
+					r.Violate("point", encs[i].Name+"/accuracy/at-init", fmt.Sprintf("%s(%.9g) = %v when called from package initialisation of the importing program, law allows [%.4f, %.4f]", encs[i].Name, rec.In[0], got, lo, hi), c02Case{encs[i].Name, math.Float32bits(rec.In[0]), fmt.Sprint(rec.In[0]), 0})
+				}
+			}
+		}
+		r.AddEvals(int64(n))
+		if n == 0 {
+			r.Inconclusive("atinit child recorded nothing")
+		}
+	}
 	if strings.HasPrefix(r.Variant, "firstpoint:") {
 		var k int
 		fmt.Sscanf(r.Variant[len("firstpoint:"):], "%d", &k)
@@ -380,7 +404,7 @@ func runC02(r *core.Run) {
 		mu.Unlock()
 	}
 	if r.Variant == "" {
-		for _, v := range append([]string{"decfirst@3", "decfirst+rev@1", "rev@6", "warm@2"}, burstVariants...) {
+		for _, v := range append([]string{"decfirst@3", "decfirst+rev@1", "rev@6", "warm@2", "atinit+burst@1", "atinit+burst@16", "atinit+burst@2"}, burstVariants...) {
 			r.RunVariantChild(v, 10*time.Minute, false)
 		}
 		nfp := len(c02FirstPoints())
@@ -388,7 +412,7 @@ func runC02(r *core.Run) {
 			r.RunVariantChild(fmt.Sprintf("firstpoint:%d@%d", k, 1+k%4), 5*time.Minute, false)
 		})
 		r.Obs("fresh_process_first_point_children", nfp)
-		r.Obs("fresh_process_variants", []string{"decfirst@3", "decfirst+rev@1", "rev@6", "warm@2"})
+		r.Obs("fresh_process_variants", []string{"decfirst@3", "decfirst+rev@1", "rev@6", "warm@2", "atinit+burst@1", "atinit+burst@16", "atinit+burst@2"})
 	}
 	r.Obs("distinct_code_side_pairs_per_encoder", codesSeen)
 	r.Obs("quick_points_per_encoder", len(pts))
@@ -561,7 +585,7 @@ func c02ColorTypes(r *core.Run) {
 	}
 	vals[4] = 0
 	vals[32] = 1
-	alphas := []float32{-0.5, 0, 1.0 / 1024, 0.25, 0.5, 0.75, 1, 1.5, float32(math.NaN())}
+	alphas := []float32{-0.5, 0, 1.0 / 1024, 0.0019, 0.25, 0.5, 0.75, 1, 1.0001, 1.5, 1e6, float32(math.NaN())}
 	rng := core.NewRNG(r.Seed, "C02", "colour")
 	// jitter the lattice by the seed so different seeds see different points
 	jit := float32(rng.Uniform(0, 1.0/64))
